@@ -10,6 +10,7 @@ import (
 	"encoding/json"
 	"os"
 	"path/filepath"
+	"sort"
 	"sync"
 )
 
@@ -86,6 +87,21 @@ func (fs *FindingSet) Active(id string) bool {
 	fs.mu.Lock()
 	defer fs.mu.Unlock()
 	return fs.active[id]
+}
+
+// All returns every listed finding (sorted by id).
+func (fs *FindingSet) All() []Finding {
+	if fs == nil {
+		return nil
+	}
+	fs.mu.Lock()
+	defer fs.mu.Unlock()
+	out := make([]Finding, 0, len(fs.byID))
+	for _, f := range fs.byID {
+		out = append(out, f)
+	}
+	sort.Slice(out, func(i, j int) bool { return out[i].ID < out[j].ID })
+	return out
 }
 
 // Listed returns the entry (any status).
